@@ -1,10 +1,13 @@
 --------------------------------- MODULE Dict ---------------------------------
 (* C10: generator of dictionary operation histories with the observations DictAbs prescribes. *)
 EXTENDS Integers, Sequences, FiniteSets, TLC, Json
-CONSTANTS Vars, Keys, Vals, Lit, MaxOps     \* Lit: the pairs of the literal :{[1 10] ["s" "v"]}
+CONSTANTS Vars, Keys, Vals, MaxOps,
+          NoPair     \* "key|value" texts that are not generated: a pair of an integer and a real cannot be written in Klong
+                     \* without both becoming reals (the numeric homogenisation recorded under C01)
+Lit == << <<"i:1", "i:10">>, <<"s:s1", "s:v">> >>     \* the pairs of the literal :{[1 10] ["s1" "v"]}
 A == INSTANCE DictAbs
 VARIABLES mon, hist
-Init == mon = A!MonInit(Vars) /\ hist = <<>>
+Init == mon = A!MonInit(Vars, {}) /\ hist = <<>>
 Add(e) == mon' = A!Step(mon, e) /\ hist' = Append(hist, e)
 Bound(v) == mon.vars[v] # 0
 Next ==
@@ -13,7 +16,7 @@ Next ==
      \/ \E v \in Vars : Add([op |-> "newf", var |-> v, pairs |-> Lit])
      \/ \E v \in Vars, s \in Vars : v # s /\ Bound(s) /\ Add([op |-> "alias", var |-> v, src |-> s])
      \/ \E v \in Vars, k \in Keys, x \in Vals, side \in {"right", "left"} :
-          Bound(v) /\ Add([op |-> "add", var |-> v, k |-> k, v |-> x, side |-> side])
+          Bound(v) /\ (k \o "|" \o x) \notin NoPair /\ Add([op |-> "add", var |-> v, k |-> k, v |-> x, side |-> side])
      \/ \E v \in Vars, k \in Keys : Bound(v) /\ Add([op |-> "find", var |-> v, k |-> k, obs |-> A!Lookup(A!Cell(mon, v), k)])
      \/ \E v \in Vars, k \in Keys : Bound(v) /\ Add([op |-> "remove", var |-> v, k |-> k])
      \/ \E v \in Vars : Bound(v) /\ Add([op |-> "size", var |-> v, obs |-> Len(A!Cell(mon, v))])
